@@ -10,7 +10,9 @@ EXTENDS FMAst, Json
 
 CONSTANTS ANames, BinOps, Depth, GrowSteps, WithArith
 
-VARIABLE t
+CONSTANTS Walks, Seed     \* 0: exhaustive set of initial trees; n > 0: n seeded random walks growing deeper trees
+
+VARIABLES t, walk
 
 I(n) == Lit("INT", n)
 ArithShapes ==
@@ -31,21 +33,29 @@ ArithShapes ==
     Bin("EQUIVALENCE", Bin("LOWER", a, b), Bin("GREATER", b, a))
   }
 
-Init == t \in TreesOver(ANames, BinOps, Depth) \cup (IF WithArith THEN ArithShapes ELSE {})
-
 Small == TreesOver(ANames, BinOps, 1)
-\* one random successor per step (RandomElement), so that -simulate does not
-\* enumerate - and print - every sibling
-Grow == /\ TLCGet("level") <= GrowSteps
-        /\ LET s == RandomElement(Small)
-               o == RandomElement(BinOps)
-               k == RandomElement(1..5)
-           IN  t' = IF k <= 2 THEN Bin(o, t, s) ELSE IF k <= 4 THEN Bin(o, s, t) ELSE Un("NOT", t)
+
+\* deterministic pseudo-random choice (see FM.tla): hash of (Seed, walk, level, salt)
+HM == 46337
+Mix(x, y) == ((x % HM) * 263 + (y % HM) * 71 + 12345) % HM
+Hash(salt) == Mix(Mix(Mix(Mix(Seed, walk), TLCGet("level")), salt), SizeT(t))
+PickS(S, salt) == LET q == SetToSeq(S) IN q[(Hash(salt) % Len(q)) + 1]
+
+Init == IF Walks = 0
+        THEN walk = 0 /\ t \in TreesOver(ANames, BinOps, Depth) \cup (IF WithArith THEN ArithShapes ELSE {})
+        ELSE walk \in 1..Walks /\ t = SetToSeq(Small)[(Mix(Mix(Seed, walk), 7) % Cardinality(Small)) + 1]
+
+\* one seeded random step per state: a walk is a single behaviour of growing trees
+Grow == /\ Walks > 0 /\ TLCGet("level") <= GrowSteps
+        /\ \E s \in {PickS(Small, 1)}, o \in {PickS(BinOps, 2)}, k \in {PickS(1..5, 3)} :
+              t' = IF k <= 2 THEN Bin(o, t, s) ELSE IF k <= 4 THEN Bin(o, s, t) ELSE Un("NOT", t)
+        /\ UNCHANGED walk
 Next == Grow
-Spec == Init /\ [][Next]_t
+Spec == Init /\ [][Next]_<<t, walk>>
 
 LevelBound == TRUE
 Emit == PrintT(ToJson([ast |-> t]))
+TypeOK == walk \in 0..Walks
 
 \* L8: each documented simple form has its requires / excludes reading
 L8_Forms ==
